@@ -186,6 +186,14 @@ def trace_plan(p, seed):
                                       f'(max diff {float(np.max(np.abs(exp - Ue[s]))):.3g})'))
             else:
                 probs.append(('U-not-h-of-edge-copula', tag + f": {len(f['pds'])} partial_derivative results stored in edge.U (expected 2)"))
+    # marginals: ppfs[i] is the quantile function of the KDE fitted on column i, u_matrix[:, i] its CDF on that column
+    for i, col in enumerate(X.columns):
+        try:
+            okm = getattr(v.ppfs[i], '__self__', None) is v.unis[i] and np.array_equal(np.asarray(v.unis[i].cumulative_distribution(X[col])), v.u_matrix[:, i])
+        except Exception as ex:      # noqa
+            okm = False
+        if not okm:
+            probs.append(('marginal-misaligned', f'column {i} ({col!r}): ppfs[{i}] / u_matrix[:, {i}] do not belong to the marginal fitted on that column'))
     rec['edge_problems'] = probs
     return rec
 
@@ -247,7 +255,7 @@ def judge(ctx, rec, model, stats):
     # ---------------- (a) fit flow: select_copula inputs, partial_derivative inputs, edge.U
     mdata = model['data']
     flow_ok_all = mdata is not None and len(mdata) == len(rec['flow'])
-    bad_model_edges, f10_seen = [], []
+    bad_model_edges, f10_seen, crit_bad = [], [], []
     for ti, row in enumerate(rec['flow']):
         for ei, f in enumerate(row):
             e = f['e']
@@ -296,7 +304,7 @@ def judge(ctx, rec, model, stats):
             if mflag is not None:
                 # criterion_exact: from level 2 on, (inputs_okb && U_okb) = hgood
                 if ti >= 1 and (mflag['inputs_ok'] and mflag['U_ok']) != mflag['hgood']:
-                    ctx.obligation(f'criterion-exact:{tag}:tree{ti + 1}:{ei}', False, 'correspondence', f'{lab}: flags {mflag}')
+                    crit_bad.append((lab, mflag))
                 if not mflag['hgood']:
                     bad_model_edges.append((ti + 1, ei))
             if in_ok and U_ok:
@@ -317,6 +325,8 @@ def judge(ctx, rec, model, stats):
                 key = f'provenance:wrong-columns:{vt}:tree{ti + 1}'
             ctx.violation(key, what, dict(base, edge=lab, model_flags=mflag, repro=repro(p, 'repro_columns', f', only_tree={ti + 1}')))
     ctx.obligation(f'corr:fit-flow:{tag}', flow_ok_all, 'correspondence', '' if flow_ok_all else 'see violation corr:fit-flow')
+    # the decidable criterion of the partial theorems is exact on this vine: from level 2 on (inputs_okb && U_okb) = hgood
+    ctx.obligation(f'criterion-exact:{tag}', not crit_bad and model['flags'] is not None, 'correspondence', str(crit_bad[:3]))
     # call counts: one select_copula and two partial_derivative calls per edge, nothing else
     n_edges = sum(len(r) for r in struct)
     cnt_ok = rec['n_selects'] == n_edges and rec['n_prepare_pds'] == 2 * n_edges
@@ -570,6 +580,20 @@ def clip_checks(ctx, quick):
             exprs.append(f"existsb (fun y => qnear (vc_sample_clip_q {VD.qfrac(c['ret'])}) y) [{'; '.join(VD.qfrac(u) for u in uses)}]")
             meta.append(('s', 3, c['ret'], uses))
     outs = cases.run_vm_cases(ctx, 'Cases_C17_clip', VM_IMPORTS, exprs, per_file=200, scope_open='Open Scope Q_scope.\n' + QNEAR)
+    # witness search for a broken bridge: the constants of the MODEL (clip_h at 2^-23; clip_s = min(max(., 2^-23), 0.99)) on the same scripted values
+    def spec_h(x):
+        x1 = 2.0 ** -23 if x == 0 else x
+        return 1 - 2.0 ** -23 if x1 == 1 else x1
+
+    def spec_s(x):
+        return min(max(x, 2.0 ** -23), 0.99)
+    for (kind, a, x, y) in meta:
+        if kind == 'h' and y != spec_h(x):
+            ctx.violation('clip:h-correction-differs-from-model', f"Tree.prepare_next_tree stores {y!r} in edge.U[{a}] for a partial_derivative value {x!r}; the proved correction "
+                          f"(Model.VineData.clip_h at EPSILON = 2^-23, theorem C17_clipping) gives {spec_h(x)!r}", {'h': x, 'stored': y, 'row': a, 'repro': REPRO_HCLIP})
+        if kind == 's' and a == 2 and y != spec_s(x):
+            ctx.violation('clip:sampler-differs-from-model', f"VineCopula._sample_row passes a percent_point result {x!r} on as {y!r}; the model's clip "
+                          f"(Spec.VineSampleR.clip_s = min(max(., 2^-23), 0.99), theorem C17_two_columns) gives {spec_s(x)!r}", {'percent_point': x, 'next_use': y, 'repro': REPRO_SCLIP})
     for (kind, a, x, y), o in zip(meta, outs):
         ok = o == 'true'
         if kind == 'h':
@@ -718,7 +742,7 @@ def two_columns(ctx, quick):
     """search only (statistical, false-alarm level <= 1e-9 per run): KS band from the DKW inequality + 0.01 for the documented collapse of the
     top 1 % to ppf(0.99); Kendall tau band from Hoeffding's inequality for U-statistics + 0.04 for the collapse"""
     import scipy.stats
-    N = 600 if quick else 3000
+    N = 1000 if quick else 3000
     ntests = 9 * 3
     alpha = 1e-9 / ntests
     ks_band = math.sqrt(math.log(2 / alpha) / (2 * N)) + 0.01 + 1e-3
@@ -802,9 +826,10 @@ def run(ctx):
     iw = len(exprs)
     exprs += [f"show_vine ({w['coq']})" for w in WITNESSES]
     outs = cases.run_vm_cases(ctx, 'Cases_C17_flow', VM_IMPORTS, exprs, per_file=8 if quick else 20, scope_open=VD.VM_SCOPE)
-    for rec in recs:
-        if 'i' in rec:
-            judge(ctx, rec, model_of(outs[rec['i']]), stats)
+    # judged in an order that puts the witnesses and the large vines of every type first (the evidence keeps the first 12 samples)
+    order = sorted((r for r in recs if 'i' in r), key=lambda r: (r['p']['src'] != 'witness', -r['p']['d'], -r['p']['t'], VTS.index(r['p']['vt'])))
+    for rec in order:
+        judge(ctx, rec, model_of(outs[rec['i']]), stats)
     witnesses(ctx, recs, outs[iw:], stats)
     clip_checks(ctx, quick)
     truncated_zero(ctx)
